@@ -53,7 +53,7 @@ def _step(cname, objs, call):
         raise ValueError(op)
 
 
-def replay(j, pid, cname, hist):
+def replay(j, pid, cname, hist, fresh=False):
     objs = {1: elems.inject(cname, [1, 2]), 2: elems.inject(cname, [3])}
     prog = []
     for k, st in enumerate(hist):
@@ -94,4 +94,57 @@ def replay(j, pid, cname, hist):
             j.fail("%s|%s|%s|%s" % (pid, site, feat, bad[0]), detail, cid)
             return False
         j.ok(cid)
+    if fresh:
+        # every live object, with its history of derivations and edits, behaves like a fresh object with the same values
+        import seqlib
+        import numpy as np
+        for i, o in objs.items():
+            if len(o.data) == 0:
+                continue
+            y = elems.inject(cname, [1] * len(o.data))
+            y.data = [np.array(a, copy=True) for a in o.data]
+            name = _differs(o, y)
+            cidf = ("share", cname, "fresh-equivalence")
+            if name:
+                j.fail("%s|%s.%s|%s;after=%s|differs-from-fresh-object-with-same-values" % (pid, cname, name, cname, prog[-1]),
+                       {"kind": "sharing", "class": cname, "member": name, "program": [s["call"] for s in hist]}, cidf)
+                return False
+            j.ok(cidf)
     return True
+
+
+def _differs(x, y):
+    """name of the first zero-argument member whose value on x differs from the one on y (same class, same contents)"""
+    import inspect
+    import seqlib
+    C = type(x)
+    for name in sorted(a for a in dir(C) if not a.startswith("_") and a not in seqlib.SKIP_MEMBERS):
+        try:
+            attr = inspect.getattr_static(C, name)
+        except AttributeError:
+            continue
+        if isinstance(attr, (classmethod, staticmethod)):
+            continue
+        res = []
+        for o in (y, x):
+            try:
+                v = getattr(o, name)
+                if not isinstance(attr, property):
+                    if not callable(v):
+                        res.append(("skip", None))
+                        continue
+                    sig = inspect.signature(v)
+                    if [p for p in sig.parameters.values()
+                            if p.default is inspect._empty and p.kind in (p.POSITIONAL_ONLY, p.POSITIONAL_OR_KEYWORD)]:
+                        res.append(("skip", None))
+                        continue
+                    v = v()
+                res.append(("val", seqlib._flat(v)))
+            except Exception as ex:  # noqa: BLE001
+                res.append(("raise", type(ex).__name__))
+        (k1, v1), (k2, v2) = res
+        if "skip" in (k1, k2):
+            continue
+        if k1 != k2 or (k1 == "raise" and v1 != v2) or (k1 == "val" and not seqlib._close(v2, v1, 1e-9)):
+            return name
+    return None
